@@ -169,6 +169,8 @@ pub struct Cfg {
     pub chain_desc: String,
     pub sharded: bool,
     pub path: String,
+    /// effective inner chunk shape in array coordinates (outermost sharding seen through the array->array codecs); None if not sharded or not invertible (squeeze)
+    pub eff_inner: Option<Vec<u64>>,
 }
 
 impl Cfg {
@@ -231,11 +233,14 @@ fn b2b_codec(rng: &mut Rng, es: Option<usize>, allow_checksum: bool, shuffle_ok:
 }
 
 /// codec list for a chunk of shape `cs` (None = irregular/unknown => no sharding, no transpose of fixed rank issues)
-fn gen_chain(rng: &mut Rng, dt: &DType, cs: Option<&[u64]>, depth: u32, allow_shard: bool) -> (String, String, bool) {
+fn gen_chain(rng: &mut Rng, dt: &DType, cs: Option<&[u64]>, depth: u32, allow_shard: bool) -> (String, String, bool, Option<Vec<u64>>) {
     let rank = cs.map(|c| c.len());
     let mut json: Vec<String> = vec![];
     let mut desc: Vec<String> = vec![];
     let mut sharded = false;
+    let mut eff_inner: Option<Vec<u64>> = None;
+    let mut perm_applied: Option<Vec<usize>> = None;
+    let mut squeezed = false;
     // array -> array
     let mut cs_cur: Option<Vec<u64>> = cs.map(|c| c.to_vec());
     if let Some(r) = rank {
@@ -245,10 +250,12 @@ fn gen_chain(rng: &mut Rng, dt: &DType, cs: Option<&[u64]>, depth: u32, allow_sh
             json.push(format!("{{\"name\":\"transpose\",\"configuration\":{{\"order\":[{}]}}}}", perm.iter().map(|x| x.to_string()).collect::<Vec<_>>().join(",")));
             desc.push(format!("transpose{}", perm.iter().map(|x| x.to_string()).collect::<String>()));
             cs_cur = cs_cur.map(|c| perm.iter().map(|&p| c[p]).collect());
+            perm_applied = Some(perm.clone());
         }
         if r >= 1 && rng.chance(1, 8) && dt.es.is_some() {
             json.push("{\"name\":\"zarrs.squeeze\"}".into());
             desc.push("squeeze".into());
+            squeezed = true;
             cs_cur = cs_cur.map(|c| { let v: Vec<u64> = c.into_iter().filter(|&x| x != 1).collect(); v });
         }
     }
@@ -278,7 +285,14 @@ fn gen_chain(rng: &mut Rng, dt: &DType, cs: Option<&[u64]>, depth: u32, allow_sh
                 let c = cs_cur.clone().unwrap();
                 // inner chunk shape: a divisor of each extent
                 let inner: Vec<u64> = c.iter().map(|&x| { let ds: Vec<u64> = (1..=x).filter(|d| x % d == 0).collect(); *rng.pick(&ds) }).collect();
-                let (ij, idesc, _) = gen_chain(rng, dt, Some(&inner), depth + 1, true);
+                let (ij, idesc, _, _) = gen_chain(rng, dt, Some(&inner), depth + 1, true);
+                if !squeezed {
+                    // encoded[i] = decoded[perm[i]]  =>  decoded[perm[i]] = encoded[i]
+                    eff_inner = Some(match &perm_applied {
+                        Some(p) => { let mut d = vec![0u64; inner.len()]; for (i, &pi) in p.iter().enumerate() { d[pi] = inner[i]; } d }
+                        None => inner.clone(),
+                    });
+                }
                 let loc = if rng.chance(1, 2) { "end" } else { "start" };
                 let idx_codecs = match rng.below(3) {
                     0 => "[{\"name\":\"bytes\",\"configuration\":{\"endian\":\"little\"}},{\"name\":\"crc32c\"}]",
@@ -312,7 +326,7 @@ fn gen_chain(rng: &mut Rng, dt: &DType, cs: Option<&[u64]>, depth: u32, allow_sh
         json.push(j);
         desc.push(d);
     }
-    (format!("[{}]", json.join(",")), desc.join("|"), sharded)
+    (format!("[{}]", json.join(",")), desc.join("|"), sharded, eff_inner)
 }
 
 pub fn gen_cfg(rng: &mut Rng, want_sharded: Option<bool>) -> Cfg {
@@ -338,19 +352,19 @@ pub fn gen_cfg(rng: &mut Rng, want_sharded: Option<bool>) -> Cfg {
         }
         let all_fixed = grid.iter().all(|d| d.0);
         let cs: Option<Vec<u64>> = if all_fixed { Some(grid.iter().map(|d| d.1[0]).collect()) } else { None };
-        let (codecs_json, chain_desc, sharded) = if all_fixed {
+        let (codecs_json, chain_desc, sharded, eff_inner) = if all_fixed {
             gen_chain(rng, &dt, cs.as_deref(), 0, want_sharded != Some(false))
         } else {
             // irregular chunk shapes: chain must not depend on a fixed chunk shape
             let r: Vec<u64> = vec![1; rank];
-            let (j, d, _) = gen_chain(rng, &dt, Some(&r), 0, false);
+            let (j, d, _, _) = gen_chain(rng, &dt, Some(&r), 0, false);
             if d.contains("squeeze") { continue; }
-            (j, d, false)
+            (j, d, false, None)
         };
         if want_sharded == Some(true) && !sharded { continue; }
         let keys = (if rng.chance(2, 3) { "default" } else { "v2" }.to_string(), if rng.chance(1, 2) { "/" } else { "." }.to_string());
         let path = rng.pick(&["/", "/a", "/g/arr"]).to_string();
-        return Cfg { dtype: dt, fill, shape, grid, regular_impl: all_fixed && rng.chance(3, 4), keys, codecs_json, chain_desc, sharded, path };
+        return Cfg { dtype: dt, fill, shape, grid, regular_impl: all_fixed && rng.chance(3, 4), keys, codecs_json, chain_desc, sharded, path, eff_inner };
     }
 }
 
